@@ -194,6 +194,32 @@ def generate(ck) -> bool:
 
 # --------------------------------------------------------------------------- the passes
 
+def const_attr_payload(an: str, av):
+    """(dtype, shape, payload) of the tensor denoted by a Constant's non-`value` attribute, per the operator spec:
+    value_int -> INT64 scalar (shape []), value_ints -> INT64 [n], value_float -> FLOAT scalar, value_floats -> FLOAT [n],
+    value_string -> STRING scalar, value_strings -> STRING [n].  Independent of the pass under test."""
+    v = av.value
+    b = lambda x: x.encode("utf-8") if isinstance(x, str) else bytes(x)  # noqa: E731
+    if an == "value_int":
+        return 7, [], list(np.asarray(int(v), dtype="<i8").tobytes())
+    if an == "value_ints":
+        return 7, [len(v)], list(np.asarray([int(x) for x in v], dtype="<i8").tobytes())
+    if an == "value_float":
+        return 1, [], list(np.asarray(float(v), dtype="<f4").tobytes())
+    if an == "value_floats":
+        return 1, [len(v)], list(np.asarray([float(x) for x in v], dtype="<f4").tobytes())
+    if an == "value_string":
+        s = b(v)
+        return 8, [], [len(s), *s]
+    if an == "value_strings":
+        data = []
+        for x in v:
+            s = b(x)
+            data += [len(s), *s]
+        return 8, [len(v)], data
+    return None
+
+
 def make_pass(name: str):
     from onnx_ir.passes import common as P
     table = {
@@ -522,13 +548,14 @@ def model_expr(name: str, p, m, conv: Conv, info, before: str, base: int) -> str
             if n.op_type == "Constant" and n.domain in ("", "onnx.ai") and len(n.attributes) == 1:
                 an, av = next(iter(n.attributes.items()))
                 if an != "value" and p.lift_all_constants and not av.is_ref():
-                    try:
-                        t = p._constant_node_attribute_to_tensor(n, an, av, n.outputs[0].name)  # numpy conversion: modelled not verified
-                    except Exception:  # noqa: BLE001
+                    # the tensor a Constant(value_int / value_ints / value_float / ... ) denotes per the ONNX operator spec,
+                    # computed HERE (not by the pass): element type, SHAPE (rank 0 for the scalar forms, [n] for the list
+                    # forms) and bytes are all part of the compared term
+                    pay = const_attr_payload(an, av)
+                    if pay is None:
                         return None
-                    if t is not None:
-                        dt, shape, data = conv.tensor_payload(t)
-                        other.append(f"({conv.vid(n.outputs[0])}, mkTensor {cZ(dt)} {clist(cZ(x) for x in shape)} {clist(cZ(x) for x in data)})")
+                    dt, shape, data = pay
+                    other.append(f"({conv.vid(n.outputs[0])}, mkTensor {cZ(dt)} {clist(cZ(x) for x in shape)} {clist(cZ(x) for x in data)})")
         return (f"(fst (lift_constants {FUEL} {'true' if p.lift_all_constants else 'false'} {cZ(p.size_limit)} "
                 f"{clist(other)} {before} {base}))")
     if name == "liftsub":
@@ -1212,6 +1239,38 @@ def targeted_cases(rng, n: int):
         cases.append(({"opset": 18, "inputs": [["x0", "F2"], ["c0", "B"]], "inits": [], "functions": fns,
                        "nodes": [N("Fout", ["x0", "c0"], ["y"], dom="local")], "outputs": [["y", "F2"]]},
                       rng.choice([["rmfunc"], ["rmfunc", "inline"], ["dce", "rmfunc"], ["rmfunc", "rmfunc"]]), rng.randrange(1 << 30)))
+        # (d) scalar Constants in the attribute forms (value_int / value_float: rank 0) next to the list forms (rank 1), with
+        #     consumers that make the RANK observable (Gather with a scalar index, Shape of the result)
+        ki, kf = rng.choice([0, 1, 2, 3]), rng.choice([0.5, 2.0, -1.0])
+        dn = [N("Constant", [], ["ci"], value_int=["i", ki]), N("Constant", [], ["cf"], value_float=["f", kf]),
+              N("Constant", [], ["cis"], value_ints=["is", [rng.choice([0, 1]), rng.choice([2, 3])]]),
+              N("Gather", ["x0", "ci"], ["pk"], axis=["i", 0]), N("Mul", ["pk", "cf"], ["y0"]),
+              N("Gather", ["x0", "cis"], ["y1"], axis=["i", 0]), N("Shape", ["y0"], ["y2"]), N("Shape", ["cf"], ["y3"])]
+        if rng.random() < 0.5:
+            dn.insert(2, N("Constant", [], ["cfs"], value_floats=["fs", [kf]]))
+            dn.append(N("Shape", ["cfs"], ["y4"]))
+        douts = [["y0", "F"], ["y1", "F2"], ["y2", "ID"], ["y3", "ID"]] + ([["y4", "ID"]] if len(dn) > 8 else [])
+        cases.append(({"opset": 18, "inputs": [["x0", "F4"]], "inits": [], "functions": [], "nodes": dn, "outputs": douts},
+                      rng.choice([["liftall"], ["liftall", "dedup"], ["cse", "liftall"], ["liftall", "rminit"], ["lift0", "liftall"]]),
+                      rng.randrange(1 << 30)))
+        # (e) subgraphs owning same-named initializers while the suffixed names the lifting would pick (w_1, w_2) are already
+        #     taken in the main graph by a USER input / an initializer / a node output (all inputs fed with non-default values)
+        wn = rng.choice(["w", "val", "t"])
+        taken = rng.choice([[wn + "_1"], [wn + "_1", wn + "_2"], [wn + "_2"]])
+        main_has_w = rng.random() < 0.4
+        br = lambda nm, op, data: {"name": nm, "inputs": [], "inits": [[wn, "F2", data, False]],  # noqa: E731
+                                   "nodes": [N(op, ["base", wn], [nm + "_o"])], "outputs": [[nm + "_o", "F2"]]}
+        en = [N("Add", ["x0", taken[0]], ["base"])]
+        if len(taken) > 1:
+            en = [N("Add", ["x0", taken[0]], ["b0"]), N("Sub", ["b0", taken[1]], ["base"])]
+        if main_has_w:
+            en.append(N("Mul", ["base", wn], ["bm"]))
+        en.append(N("If", ["c0"], ["y"], then_branch=["g", br("th", "Add", [1.0, 1.0])], else_branch=["g", br("el", "Mul", [5.0, 5.0])]))
+        eouts = [["y", "F2"]] + ([["bm", "F2"]] if main_has_w else [])
+        cases.append(({"opset": 18, "inputs": [["c0", "B"], ["x0", "F2"]] + [[t, "F2"] for t in taken],
+                       "inits": [[wn, "F2", [7.0, -7.0], False]] if main_has_w else [], "functions": [], "nodes": en, "outputs": eouts},
+                      rng.choice([["liftsub"], ["liftsub", "dedup"], ["liftsub", "rminit"], ["liftsub", "liftsub"], ["dce", "liftsub"]]),
+                      rng.randrange(1 << 30)))
     return cases
 
 
